@@ -232,7 +232,7 @@ def contract_getitem():
         target="command_line:_FeatureProcessorDataset.__getitem__#seeding-prefix",
         uses=["A-PYSEM", "A-TORCH"],
         consts={"SEEDED_BY_FULL_MAP_POSITION": SpecFn(seeded_right)},
-        handlers={"torch.manual_seed": h_manual_seed},
+        handlers={"torch.manual_seed": h_manual_seed, "hash": h_hash},
         ensures=[("seed_is_base_plus_position_in_full_map", "SEEDED_BY_FULL_MAP_POSITION()")],
     )
 
@@ -632,6 +632,18 @@ def h_from_numpy(ex, st, args, kwargs, node, ev):
     return SigVal(("from_numpy", x.t), x.ndim, x.nchan)
 
 
+HASH = api.uf("python_hash", api.I, api.I)       # hash(): some integer - for str it even differs from process to process
+
+
+def h_hash(ex, st, args, kwargs, node, ev):
+    (x,) = args
+    if isinstance(x, Opaque):
+        return z3.Int("python_hash_of_" + "".join(ch if ch.isalnum() else "_" for ch in str(x.term)))
+    if not symex.is_z3(x):
+        raise Outside("hash of a non-scalar")
+    return HASH(Z(x))
+
+
 def contract_getitem_full(ndim, npre, npost, has_computer, with_map):
     def expected(ev):
         ex = ev.ex
@@ -667,7 +679,7 @@ def contract_getitem_full(ndim, npre, npost, has_computer, with_map):
         target="command_line:_FeatureProcessorDataset.__getitem__", uses=["A-PYSEM", "A-TORCH", "A-IO-CONTAINER"],
         consts={"np.float64": Opaque("float64", "dtype"), "RESULT_OK": SpecFn(result_ok), "SEEDED_OK": SpecFn(seeded_ok),
                 "NCHAN": SpecFn(lambda ev: ev.ex.ctx["nchan"]), "FIELD_WRITES": SpecFn(lambda ev: len([w for w in ev.st.writes if w and w[0] == "field"]))},
-        handlers={"torch.manual_seed": h_manual_seed_full, "read_signal": h_read_signal_full, "torch.from_numpy": h_from_numpy},
+        handlers={"torch.manual_seed": h_manual_seed_full, "read_signal": h_read_signal_full, "torch.from_numpy": h_from_numpy, "hash": h_hash},
         raises={"ValueError": bad},
         ensures=[("item_is_id_and_the_configured_pipeline", "RESULT_OK(result)"), ("seed_is_base_plus_position_in_full_map", "SEEDED_OK()"),
                  ("dataset_not_assigned", "FIELD_WRITES() == 0")],
